@@ -27,6 +27,8 @@ TRUSTED = ["dask re-raises task exceptions at compute time; pygmo's wait_check r
 unit("C09", "group_run")(C01.group_run)
 unit("C09", "processor.run_pipeline")(C01.run_pipeline_order)
 unit("C09", "exposure.run_pipeline")(C02.run_entry)
+from . import C04 as _C04  # noqa: E402
+unit("C09", "seed_context")(_C04.cm_restore)         # set_random_seed around each pipeline run: the block's exception leaves the with-statement
 
 
 SINGLE_REPLAY = lambda w: {"code": """
@@ -201,11 +203,15 @@ for values in ([1, 2, 3], [1, 3, 2], [2, 1]):          # the probe fails at leve
 STANDIN = {r"no_swallow": RUNMODE_REPLAY}
 
 
+TRANSPARENT_CMS = {"warnings.catch_warnings", "np.errstate", "numpy.errstate", "ThreadPoolExecutor", "change_pipeline", "dask.config.set", "tempfile.TemporaryDirectory", "TemporaryDirectory", "SimpleTimer", "ProgressBar", "tqdm", "tqdm.auto.tqdm"}
+
+
 @unit("C09", "no_swallow")
 def no_swallow(u: Unit):
     """On every path from a model call to the caller of run_mode: no `except` clause that can catch a model's
     exception ends without re-raising THE SAME object (bare `raise`), and nothing suppresses exceptions."""
     n_handlers = 0
+    with_cms = set()
     for rel in CHAIN_MODULES:
         mi = u.world.module_by_path(rel)
         fns = list(mi.functions.values()) + [m for c in mi.classes.values() for m in list(c.methods.values()) + list(c.getters.values())]
@@ -235,8 +241,19 @@ def no_swallow(u: Unit):
                 if isinstance(n, ast.With):
                     for it in n.items:
                         src = ast.unparse(it.context_expr)
-                        if src.startswith(("suppress(", "contextlib.suppress(")) and calls_chain(n.body):
+                        if not calls_chain(n.body):
+                            continue
+                        if src.startswith(("suppress(", "contextlib.suppress(")):
                             u.static(f"no_swallow[{fn.qualname.split('::')[1]}:suppress@{n.lineno}]", False, fn.qualname, f"{src} around a pipeline call", replay=SINGLE_REPLAY)
+                            continue
+                        # every other context manager around a pipeline call must let the block's exception through: set_random_seed is
+                        # executed (unit seed_context, all exits), the library ones below are transparent by their documentation (trusted)
+                        callee = ast.unparse(it.context_expr.func) if isinstance(it.context_expr, ast.Call) else src
+                        with_cms.add(callee)
+                        if callee.split(".")[-1] == "set_random_seed" or callee in TRANSPARENT_CMS:
+                            continue
+                        u.undecide(f"no_swallow.context_manager[{fn.qualname.split('::')[1]}:{n.lineno}]", fn.qualname, f"context manager {callee} around a pipeline call is not one with a transparency contract")
+    u.static("no_swallow.context_managers", True, "", f"context managers around pipeline calls: {sorted(with_cms)} (set_random_seed: unit seed_context; {sorted(TRANSPARENT_CMS)}: library, transparent)")
     u.static("no_swallow.cover", n_handlers >= 3, "", f"{n_handlers} handlers on the chain inspected")
 
 
